@@ -362,7 +362,7 @@ def run(ctx):
                 # infeasible at once, and on badly scaled data the determination is numerical.  The status is
                 # accepted iff the returned certificate passes the recession test; otherwise it is a violation.
                 nf = len(c.failed)
-                judge(c, P, dict(ref, status="unbounded"), rv, obj, rcons, p, tag, rng)
+                judge(c, P, dict(ref, status="unbounded", real_status="infeasible"), rv, obj, rcons, p, tag, rng)
                 if len(c.failed) == nf:
                     ctx.count("status.dual-infeasible-certified-on-infeasible-reference")
                 continue
@@ -479,7 +479,8 @@ def run(ctx):
             return "solve:pwl-linearisation-changes-the-problem"
         pl = lib_lp_optimum(p)
         if pl is not None and pl[0] is not None:
-            if pl[0] != ref["status"] or (pl[1] is not None and abs(pl[1] - ref["p"]) > 1e-6 * max(1.0, abs(ref["p"]))):
+            if pl[0] != ref.get("real_status", ref["status"]) or \
+                    (pl[1] is not None and abs(pl[1] - ref["p"]) > 1e-6 * max(1.0, abs(ref["p"]))):
                 return "solve:matrix-form-conversion-changes-the-problem"
         if "multiplier" in generic or "infeasibility-certificate" in generic:
             if pieces_differ(rcons):
